@@ -6,6 +6,7 @@ import (
 	"testing"
 	"time"
 
+	"github.com/0xReLogic/Helios/internal/config"
 	"github.com/0xReLogic/Helios/internal/zzverif/vh"
 	"github.com/0xReLogic/Helios/internal/zzverif/vres"
 	"github.com/0xReLogic/Helios/internal/zzverif/vrt"
@@ -59,6 +60,9 @@ func c04Events(p c04Params) []string {
 	if vres.Thorough() {
 		ev = append(ev, "flip-refuse:b0", "flip-garbage:b0")
 	}
+	// the operator takes b0 out and registers it again (same name and address): a new backend,
+	// which has no failed responses on record and is not ejected
+	ev = append(ev, "readd:b0")
 	if p.Active {
 		ev = append(ev, "tick")
 	}
@@ -196,6 +200,14 @@ func (in *c04Inst) Step(ev int) *vh.HViol {
 			st.mode, st.probeMode = "ok", "ok"
 		}
 		in.out = st.mode
+	case e == "readd:b0":
+		in.k.lb.RemoveBackend("b0")
+		if err := in.k.lb.AddBackend(config.BackendConfig{Name: "b0", Address: "http://b0.test:80"}); err != nil {
+			vh.ToolError("re-adding b0: %v", err)
+		}
+		in.k.adopt(in.k.backendByName("b0"))
+		*in.mon[0] = c04Mon{until: -1}
+		in.out = "re-registered"
 	case e == "tick":
 		pf, pok = in.tick()
 		in.out = fmt.Sprintf("probes-failed=%d ok=%d", len(pf), len(pok))
